@@ -86,6 +86,11 @@ func NewWorld(r *Run, cfg NetConfig) *World {
 	}
 	sync2.YieldHook = w.yield
 	kv.SimFS = nil
+	// tuning knob, per run: the engine's memtable size (production 32 MiB; first-touch of dozens
+	// of 32 MiB arenas dominated the cost of runs with many shard replicas, and small memtables
+	// make the engine flush on its own within short runs)
+	kv.SimMemTableSize = []uint64{128 << 10, 512 << 10, 2 << 20}[H(r.Seed, "memtable")%3]
+	r.Knobs["memtable"] = kv.SimMemTableSize
 	return w
 }
 
@@ -94,6 +99,7 @@ func (w *World) Close() {
 	sync2.YieldHook = nil
 	rpc.SimNewPool = nil
 	kv.SimFS = nil
+	kv.SimMemTableSize = 0
 	w.yieldOff = true
 	os.RemoveAll(w.Root)
 }
